@@ -41,13 +41,13 @@ def check(run, prog, tier):
     tnack = prog.lookup_method(SUB, "to_nack_entry")
     refresh = prog.lookup_method("sd.TimedStore", "refresh")
     stopm = prog.lookup_method("sd.TimedStore", "stop")
-    if not all((hs, ahs, qs, nack, fse, tack, tnack, refresh, stopm)):
+    if not all((hs, ahs, qs, fse, tack, tnack, refresh, stopm)):
         raise AnalysisError("subscribe handling functions vanished")
-    run.analysed(hs, ahs, nack, fse, tack, tnack)
+    run.analysed(*[f for f in (hs, ahs, nack, fse, tack, tnack) if f is not None])
     me = ("self", INST)
 
     # ------------------------------------------------------------------ K1
-    eng = engine(prog, InlineOnly(names=(refresh.qual, nack.qual, f"{INST}.eventgroup_subscribe_stopped"), props=False, max_depth=2))
+    eng = engine(prog, InlineOnly(names=(refresh.qual, f"{INST}.eventgroup_subscribe_stopped") + ((nack.qual,) if nack is not None else ()), props=False, max_depth=2))
     ent = P(hs, param_at(hs, 0, "entry"))
     addr = P(hs, param_at(hs, 1, "addr"))
     paths = eng.paths(hs, recv=INST)
@@ -108,7 +108,7 @@ def check(run, prog, tier):
     run.ob("K1", f"{hs.qual}:answer-built-from-the-entry", bool(oks), loc(hs), f"the acknowledged subscription is {show(subterm)[:80] if subterm else '?'}")
 
     # ------------------------------------------------------------------ K2
-    eng2 = engine(prog, InlineOnly(names=(nack.qual,), props=False, max_depth=1, unroll=3 if tier == "thorough" else 2))
+    eng2 = engine(prog, InlineOnly(names=((nack.qual,) if nack is not None else ()), props=False, max_depth=1, unroll=3 if tier == "thorough" else 2))
     aent = P(ahs, param_at(ahs, 0, "entry"))
     aaddr = P(ahs, param_at(ahs, 1, "addr"))
     apaths = eng2.paths(ahs, recv=ANN)
@@ -231,34 +231,37 @@ def check(run, prog, tier):
     sdh = P(smr, param_at(smr, 0, "sdhdr"))
     sp = e0.paths(smr, recv=PROTO)
     run.paths += len(sp)
-    for mcv in (False, True):
-        def leaf(tm):
-            if tm == mc:
-                return mcv
-            if tm == ("attr", sdh, "flag_unicast"):
-                return True
-            if tm[0] == "attr" and tm[2] == "sd_type" and tm[1][0] == "elem":
-                return et["Subscribe"]
-            if tm[0] == "attr" and tm[2] == "ttl":
-                return 3
-            raise AnalysisError(f"{smr.qual}: dispatch depends on {show(tm)}")
-        hits = []
-        for p in sp:
-            if not any(s[0] == "elem" for c, _, _, _ in p.conds for s in subterms(c)):
-                continue  # zero entries
-            try:
-                if all(bool(eval_term(c, leaf)) == v for c, v, _, _ in p.conds):
-                    hits.append(p)
-            except AnalysisError:
-                raise
-        if len(hits) != 1:
-            raise AnalysisError(f"{smr.qual}: {len(hits)} paths for one Subscribe entry, multicast={mcv}")
-        p = hits[0]
-        hc = calls_to(p, ahs.qual)
-        other = [e for e in p.events if e.kind == "call" and (e.sched or (e.targets and e.targets[0].module.short == "sd" and e.targets[0].qual != ahs.qual and not e.targets[0].qual.endswith("format_address")))]
-        if mcv:
-            ok = not hc and not other
-            run.ob("K4", f"{smr.qual}:multicast-subscribe-dropped", ok, loc(smr), f"Subscribe over multicast: {len(hc)} handle_subscribe call(s), {len(other)} other effect(s) (must be none)")
-        else:
-            ok = len(hc) == 1 and hc[0].args[1:2] == (P(smr, param_at(smr, 1, "addr")),) and hc[0].args[0][0] == "elem"
-            run.ob("K4", f"{smr.qual}:unicast-subscribe-dispatched", ok, loc(smr), f"Subscribe over unicast: handed to the announcer {len(hc)}x with the sender address")
+    # (the gate is decided for StopSubscribe entries - TTL 0 - and for the corners of the TTL range alike: a Subscribe entry of
+    # any TTL that arrives by multicast is dropped)
+    for ttlv in (0, 1, 3, 0xFFFFFF):
+        for mcv in (False, True):
+            def leaf(tm):
+                if tm == mc:
+                    return mcv
+                if tm == ("attr", sdh, "flag_unicast"):
+                    return True
+                if tm[0] == "attr" and tm[2] == "sd_type" and tm[1][0] == "elem":
+                    return et["Subscribe"]
+                if tm[0] == "attr" and tm[2] == "ttl":
+                    return ttlv
+                raise AnalysisError(f"{smr.qual}: dispatch depends on {show(tm)}")
+            hits = []
+            for p in sp:
+                if not any(s[0] == "elem" for c, _, _, _ in p.conds for s in subterms(c)):
+                    continue  # zero entries
+                try:
+                    if all(bool(eval_term(c, leaf)) == v for c, v, _, _ in p.conds):
+                        hits.append(p)
+                except AnalysisError:
+                    raise
+            if len(hits) != 1:
+                raise AnalysisError(f"{smr.qual}: {len(hits)} paths for one Subscribe entry, multicast={mcv}, ttl={ttlv}")
+            p = hits[0]
+            hc = calls_to(p, ahs.qual)
+            other = [e for e in p.events if e.kind == "call" and (e.sched or (e.targets and e.targets[0].module.short == "sd" and e.targets[0].qual != ahs.qual and not e.targets[0].qual.endswith("format_address")))]
+            if mcv:
+                ok = not hc and not other
+                run.ob("K4", f"{smr.qual}:multicast-subscribe-dropped[ttl={ttlv:#x}]", ok, loc(smr), f"Subscribe over multicast: {len(hc)} handle_subscribe call(s), {len(other)} other effect(s) (must be none)")
+            else:
+                ok = len(hc) == 1 and hc[0].args[1:2] == (P(smr, param_at(smr, 1, "addr")),) and hc[0].args[0][0] == "elem"
+                run.ob("K4", f"{smr.qual}:unicast-subscribe-dispatched[ttl={ttlv:#x}]", ok, loc(smr), f"Subscribe over unicast: handed to the announcer {len(hc)}x with the sender address")
